@@ -42,8 +42,9 @@ def expected_positions(prog: dict[str, Any], positions: list[tuple[str, Any, int
             elif role == "block" and isinstance(node, tuple) and node and node[0] == "msgswitch":
                 _, kind, var, cases = node
                 add((kind, (env.val(var),)), pos)
-                for (v, text) in cases:
-                    add(("DefaultText", (env.val(text),)) if v is None else ("CaseText", (env.val(v), env.val(text))), pos)
+            elif role == "msgcase":
+                v, text = node
+                add(("DefaultText", (env.val(text),)) if v is None else ("CaseText", (env.val(v), env.val(text))), pos)
             elif role == "stmt":
                 t = node[0]
                 if t == "op":
